@@ -206,6 +206,7 @@ def ev_tokens(evs, kinds=FJV):
 
 
 def split_line(line):
+    line = line.partition(" || ")[0]          # the chart log (chart pass) is handled separately
     head, _, tail = line.partition("|")
     return head.split(), tail.split()
 
@@ -611,11 +612,207 @@ def canon_model(line):
     return " ".join(("n=0" if x == "n=none" else x) for x in line.split() if not x.startswith("exit="))
 
 
+
+# ====================================================================================== chart pass (AtlasChart bookkeeping)
+def chart_script(cfg, r, pts, tier):
+    """header, chart log on, anchor, directed chart pairs (new charts at known manifold points close to and far from the
+    anchor), directed boundary scans, then ordinary sampling / traversal so that the library itself creates charts, asks
+    inPolytope and runs borderCheck."""
+    q = 1 if tier == "quick" else 3
+    lines = [header(cfg), "clog 1", "anchor " + st(pts[0])]
+    order = sorted(pts[1:], key=lambda x: dist(x, pts[0]))
+    chosen = order[:3] + order[-2:] + [r.choice(pts) for _ in range(2 * q)]
+    for x in chosen:
+        lines.append("newchart " + st(x))
+    for c in range(4):
+        lines.append("ipscan %d" % c)
+    for _ in range(5 * q):
+        lines.append("sample u")
+    for _ in range(3 * q):
+        lines.append("sample n %s %s" % (st(r.choice(pts)), f2bits(r.choice([cfg["delta"], 0.3, 1.0]))))
+    for _ in range(3 * q):
+        a = r.choice(pts)
+        lines.append("geo 1 %s %s" % (st(a), st(r.choice(pts))))
+    lines.append("ipscan 0")
+    return lines
+
+
+def chart_driver_lines(cfg, out):
+    """chart log -> driver ops + expected outputs"""
+    n, m = cfg["n"], CONS[cfg["con"]][0]
+    k = n - m
+    L, E, T = [], [], []
+    for li, o in enumerate(out):
+        _, _, cl = o.partition(" || ")
+        tk = cl.split()
+        i = 0
+        while i < len(tk):
+            kind = tk[i]
+            i += 1
+            if kind == "NCH":
+                L.append("nch %s %s" % (tk[i], tk[i + 1]))
+                E.append("ok")
+                T.append((li, "chart:nch"))
+                i += 2
+            elif kind == "GH":
+                c1, c2 = tk[i], tk[i + 1]
+                w = tk[i + 2:i + 2 + 2 * k]
+                cp, n1, n2 = tk[i + 2 + 2 * k:i + 5 + 2 * k]
+                rest = tk[i + 5 + 2 * k:i + 5 + 2 * k + 2 * (k + 2)]
+                L.append("gh %s %s %s" % (c1, c2, " ".join(w)))
+                E.append("cp=%s n1=%s n2=%s %s" % (cp, n1, n2, " ".join(rest)))
+                T.append((li, "chart:gh"))
+                i += 5 + 2 * k + 2 * (k + 2)
+            elif kind == "IPK":
+                L.append("ipk %s %s" % (tk[i], " ".join(tk[i + 1:i + 1 + k])))
+                E.append("ret=" + tk[i + 1 + k])
+                T.append((li, "chart:ipk"))
+                i += 2 + k
+            elif kind == "BCK":
+                cid = tk[i]
+                v = tk[i + 1:i + 1 + k]
+                nh = int(tk[i + 1 + k])
+                j = i + 2 + k
+                vps, after = [], []
+                for _ in range(nh):
+                    vps += tk[j:j + k]
+                    after += tk[j + k:j + 2 * k + 2]
+                    j += 2 * k + 2
+                L.append("bck %s %s %d %s" % (cid, " ".join(v), nh, " ".join(vps)))
+                E.append(("nh=%d %s" % (nh, " ".join(after))).strip())
+                T.append((li, "chart:bck"))
+                i = j
+            else:
+                raise ValueError("unknown chart log token %r" % kind)
+    return L, E, T
+
+
+def chart_oracle(cfg, out):
+    """spec oracle on the implementation's own chart log, independent of the model: Python keeps the halfspaces *as the
+    library dumped them* (GH, BCK) and evaluates the property of inPolytope itself — true iff ||u|| <= radius and
+    u . u_h <= rhs_h for every halfspace of the chart.  Comparisons within 1e-9 of a boundary are not judged."""
+    n, m = cfg["n"], CONS[cfg["con"]][0]
+    k = n - m
+    radius, poly = {}, {}
+    fails = []
+    for li, o in enumerate(out):
+        tk = o.partition(" || ")[2].split()
+        i = 0
+        while i < len(tk):
+            kind = tk[i]
+            i += 1
+            if kind == "NCH":
+                radius[tk[i]] = bits2f(tk[i + 1])
+                poly.setdefault(tk[i], [])
+                i += 2
+            elif kind == "GH":
+                c1, c2 = tk[i], tk[i + 1]
+                j = i + 5 + 2 * k
+                h1 = {"u": fl(tk[j:j + k]), "rhs": bits2f(tk[j + k + 1])}
+                h2 = {"u": fl(tk[j + k + 2:j + 2 * k + 2]), "rhs": bits2f(tk[j + 2 * k + 3])}
+                h1["compl"], h2["compl"] = h2, h1
+                poly.setdefault(c1, []).append(h1)
+                poly.setdefault(c2, []).append(h2)
+                if tk[i + 2 + 2 * k] != "1":
+                    fails.append((li, "chart", "pair-not-linked", "generateHalfspace left a pair that is not cross-linked"))
+                for cc, cnt in ((c1, tk[i + 3 + 2 * k]), (c2, tk[i + 4 + 2 * k])):
+                    if int(cnt) != len(poly[cc]):
+                        fails.append((li, "chart", "neighbor-count", "getNeighborCount %s but %d boundaries were added" % (cnt, len(poly[cc]))))
+                i = j + 2 * (k + 2)
+            elif kind == "IPK":
+                cid = tk[i]
+                u = fl(tk[i + 1:i + 1 + k])
+                ret = tk[i + 1 + k] == "1"
+                i += 2 + k
+                nu = math.sqrt(math.fsum(x * x for x in u))
+                r = radius.get(cid)
+                if r is None or not all(math.isfinite(x) for x in u):
+                    continue
+                margins = [r - nu] + [h["rhs"] - math.fsum(a * b for a, b in zip(u, h["u"])) for h in poly.get(cid, [])]
+                scale = max(1.0, nu * nu, max([abs(h["rhs"]) for h in poly.get(cid, [])] + [0.0]))
+                if any(abs(mg) <= 1e-9 * scale for mg in margins):
+                    continue
+                want = all(mg > 0 for mg in margins)
+                if want != ret:
+                    fails.append((li, "chart", "inpolytope-spec",
+                                  "inPolytope answered %d for a point whose margins to the radius / %d halfspaces are %s"
+                                  % (ret, len(margins) - 1, ["%.3g" % mg for mg in margins][:6])))
+            elif kind == "BCK":
+                cid = tk[i]
+                nh = int(tk[i + 1 + k])
+                j = i + 2 + k
+                hs = poly.get(cid, [])
+                for q in range(nh):
+                    if q < len(hs):
+                        hs[q]["compl"]["u"] = fl(tk[j + k:j + 2 * k])
+                        hs[q]["compl"]["rhs"] = bits2f(tk[j + 2 * k + 1])
+                    j += 2 * k + 2
+                if nh != len(hs):
+                    fails.append((li, "chart", "neighbor-count", "borderCheck saw %d halfspaces, %d were added" % (nh, len(hs))))
+                i = j
+            else:
+                break
+    return fails
+
+
+def same_or_drift(exp, got):
+    """'same' | 'drift' (all numbers within 1e-12 relative) | 'diff'"""
+    if exp == got:
+        return "same"
+    a, b = exp.split(), got.split()
+    if len(a) != len(b):
+        return "diff"
+    for x, y in zip(a, b):
+        if x == y:
+            continue
+        if not (x.isdigit() and y.isdigit()):
+            return "diff"
+        fx, fy = bits2f(x), bits2f(y)
+        if not (abs(fx - fy) <= 1e-12 * max(abs(fx), abs(fy), 1e-300)):
+            return "diff"
+    return "drift"
+
+
+def run_chart_pass(ck, hbin, cfg, pts, tier, stats):
+    r = ck.rng.fork("chart%d" % cfg["idx"])
+    script = chart_script(cfg, r, pts, tier)
+    out, rc, err = ck.run_bin(hbin, script, timeout=600)
+    out = out or []
+    if rc != 0 or len(out) != len(script) - 1:
+        return script, out, [(len(out), "crash", "chart-pass", "harness exited with %s in the chart pass: %s" % (rc, (err or "")[-600:]))], []
+    cf = chart_oracle(cfg, out)
+    stats["chart:oracle-failures"] = len(cf)
+    return script, out, cf[:3], chart_compare(ck, cfg, out, stats)
+
+
+def chart_compare(ck, cfg, out, stats):
+    L, E, T = chart_driver_lines(cfg, out)
+    diffs = []
+    if L:
+        mo, rc2, err2 = ck.run_bin(ck.driver(DRIVER), [header(cfg, driver=True)] + L, timeout=600)
+        if rc2 != 0 or mo is None or len(mo) != len(L):
+            raise RuntimeError("model driver failed in the chart pass (rc=%s): %s" % (rc2, (err2 or "")[-800:]))
+        for line, exp, tag, got in zip(L, E, T, mo):
+            stats["replay:" + tag[1]] = stats.get("replay:" + tag[1], 0) + 1
+            if tag[1] == "chart:bck" and got.startswith("x="):
+                xs, _, got = got.partition(" ")
+                if xs != "x=0":
+                    stats["chart:bck-expansions"] = stats.get("chart:bck-expansions", 0) + int(xs[2:])
+            v = same_or_drift(exp, got.strip())
+            if v == "drift":
+                stats["chart:numeric-drift"] = stats.get("chart:numeric-drift", 0) + 1
+            elif v == "diff":
+                diffs.append((tag[0], tag[1], exp[:300], got[:300], False, line[:400]))
+            if tag[1] == "chart:bck" and "nh=0" not in exp:
+                stats["chart:bck-with-halfspaces"] = stats.get("chart:bck-with-halfspaces", 0) + 1
+    return diffs
+
 # ====================================================================================== running one configuration
 def run_config(ck, hbin, cfg, tier, script=None):
     """returns dict(script, out, fails=[(op index, site, class, what)], diffs=[(op index, tag, expected, got)], stats)"""
     r = ck.rng.fork("run%d" % cfg["idx"]) if script is None else None
     stats = {}
+    pts_for_chart = None
     if script is None:
         p1 = pass1_script(cfg, r.fork("p1"), 40)
         o1, rc1, err1 = ck.run_bin(hbin, p1, timeout=300)
@@ -630,6 +827,7 @@ def run_config(ck, hbin, cfg, tier, script=None):
                 if satisfied(cfg, x) and all(cfg["lo"] <= v <= cfg["hi"] for v in x):
                     pts.append(x)
         stats["manifold_points"] = len(pts)
+        pts_for_chart = pts
         p1pair = (p1, o1)
         script = main_script(cfg, r.fork("main"), pts, tier)
         out = None
@@ -669,8 +867,18 @@ def run_config(ck, hbin, cfg, tier, script=None):
             stats["replay:" + tag[1]] = stats.get("replay:" + tag[1], 0) + 1
             if canon_model(got) != exp:
                 diffs.append((tag[0], tag[1], exp[:300], got[:300], sc is script))
-    stats["replayed"] = nrep
-    return dict(script=script, out=out, fails=fails, diffs=diffs, stats=stats, p1=p1pair)
+    chart = None
+    if "clog 1" in script:
+        chart = (script, out)
+        fails += chart_oracle(cfg, out)[:3]
+        diffs += chart_compare(ck, cfg, out, stats)
+    if cfg["space"] != "proj" and pts_for_chart and len(pts_for_chart) >= 6:
+        cs, co, cf, cd = run_chart_pass(ck, hbin, cfg, pts_for_chart, tier, stats)
+        chart = (cs, co)
+        fails += cf
+        diffs += cd
+    stats["replayed"] = nrep + sum(v for k, v in stats.items() if k.startswith("replay:chart:"))
+    return dict(script=script, out=out, fails=fails, diffs=diffs, stats=stats, p1=p1pair, chart=chart)
 
 
 def account(ck, cfg, res):
@@ -702,6 +910,7 @@ def account(ck, cfg, res):
         ck.case((cfg["space"], cfg["con"], cfg["n"], cfg["delta"], cfg["lam"], cfg["tol"], op), nontrivial)
     for k, v in res["stats"].items():
         ck.count(k, v)
+    ck.drift_events += res["stats"].get("chart:numeric-drift", 0)
     ck.count("cfg:space:" + cfg["space"])
     ck.count("cfg:con:" + cfg["con"])
     ck.count("cfg:delta:%g" % cfg["delta"])
@@ -747,10 +956,10 @@ def judge(ck, hbin, cfg, res, tier):
         if ck.known_finding(record) is not None:
             ck.report(record, found_input=True)
             continue
-        script = res["script"]
+        script = res["chart"][0] if (site == "chart" and res.get("chart")) else res["script"]
         small = script
         if site != "crash" and len(script) > 3:
-            keep = [l for l in script[1:3] if l.startswith(("anchor", "params"))]
+            keep = [l for l in script[1:3] if l.startswith(("anchor", "params", "clog"))]
             rest = script[1 + len(keep):]
 
             def still(lines):
@@ -758,6 +967,8 @@ def judge(ck, hbin, cfg, res, tier):
                 o, rc, err = ck.run_bin(hbin, s, timeout=300)
                 if o is None or len(o) != len(s) - 1:
                     return False
+                if site == "chart":
+                    return any((a, b) == key for (_i, a, b, _w) in chart_oracle(cfg, o))
                 return any((a, b) == key for op, ol in zip(s[1:], o) for (a, b, _w) in oracle_line(cfg, op, ol))
             small = [script[0]] + keep + core.ddmin(rest, still, max_tests=60)
         o, rc, err = ck.run_bin(hbin, small, timeout=300)
@@ -767,12 +978,15 @@ def judge(ck, hbin, cfg, res, tier):
             bad += 1
     if res["diffs"]:
         ck.disagreements += len(res["diffs"])
-        (li, tag, exp, got, inmain) = res["diffs"][0]
-        sc = res["script"] if inmain else res["p1"][0]
+        d0 = res["diffs"][0]
+        (li, tag, exp, got, inmain) = d0[:5]
+        ischart = tag.startswith("chart:")
+        sc = res["chart"][0] if ischart else (res["script"] if inmain else res["p1"][0])
         record = {"engine": "constrained", "space": cfg["space"], "site": "corr", "class": tag, "con": cfg["con"],
                   "what": "model/implementation disagreement"}
         # the spec oracle passed on this op (or it would be among the fails): a correspondence break without a failing input
-        ck.report(record, script={"cfg": cfg, "lines": [sc[0]] + [l for l in sc[1:3] if l.startswith(("anchor", "params")) and l is not sc[1 + li]] + [sc[1 + li]]},
+        rep_lines = sc[:li + 2] if ischart else ([sc[0]] + [l for l in sc[1:3] if l.startswith(("anchor", "params")) and l is not sc[1 + li]] + [sc[1 + li]])
+        ck.report(record, script={"cfg": cfg, "lines": rep_lines},
                   expected=exp, observed=got, found_input=False, engine="constrained",
                   obligation="correspondence constrained/%s: real code vs OmplModel.Model.Constrained on op `%s` (%d differing replay lines in this configuration)"
                              % (tag, sc[1 + li].split()[0], len(res["diffs"])))
